@@ -431,3 +431,90 @@ CASES = dict(ode=case_ode, statio=case_statio, nonstatio=case_nonstatio, obs=cas
 
 def run_case(cfg):
     return CASES[cfg["kind"]](cfg)
+
+
+# ---- generators as advanced BY jinns.solve (hook H2): one draw before the loop (probe) + one draw per iteration ----------
+def case_solvegen(cfg):
+    """runs jinns.solve on a small problem and records, from hook H2, the state of every store of the main generator after the
+    probe draw and after each iteration's draw; the trace is validated by the same Batching clauses as direct get_batch calls"""
+    import warnings
+
+    import equinox as eqx
+    import jax
+    import jax.numpy as jnp
+    import optax
+    import jinns
+    from jinns import _verif
+    from jinns.loss import ODE, PDEStatio, PDENonStatio
+
+    warnings.simplefilter("ignore")
+    gk = cfg["gkind"]
+    key = jax.random.PRNGKey(cfg["seed"])
+    tr = _trace(cfg, "solvegen", cfg.get("dim", 1))
+    if gk == "ode":
+        g = jinns.data.DataGeneratorODE(key, cfg["n"], 0.0, 1.0, cfg["b"])
+        u = jinns.utils.create_PINN(key, ((eqx.nn.Linear, 1, 1),), "ODE")
+
+        class Eq(ODE):
+            def equation(self, t, u, p):
+                return u(t, p)
+        L = jinns.loss.LossODE
+    elif gk == "statio":
+        dim = cfg["dim"]
+        g = jinns.data.CubicMeshPDEStatio(key=key, n=cfg["n"], nb=cfg.get("nb"), omega_batch_size=cfg["b"], omega_border_batch_size=cfg.get("bb"),
+                                          dim=dim, min_pts=(0.0,) * dim, max_pts=(1.0,) * dim)
+        u = jinns.utils.create_PINN(key, ((eqx.nn.Linear, dim, 1),), "statio_PDE", dim)
+
+        class Eq(PDEStatio):
+            def equation(self, x, u, p):
+                return u(x, p)
+        L = jinns.loss.LossPDEStatio
+    else:
+        dim = cfg["dim"]
+        g = jinns.data.CubicMeshPDENonStatio(key=key, n=cfg["n"], nb=cfg.get("nb"), nt=cfg["nt"], omega_batch_size=cfg["b"],
+                                             omega_border_batch_size=cfg.get("bb"), temporal_batch_size=cfg["bt"], dim=dim, min_pts=(0.0,) * dim,
+                                             max_pts=(1.0,) * dim, tmin=0.0, tmax=1.0, cartesian_product=cfg.get("cart", True))
+        u = jinns.utils.create_PINN(key, ((eqx.nn.Linear, dim + 1, 1),), "nonstatio_PDE", dim)
+
+        class Eq(PDENonStatio):
+            def equation(self, t, x, u, p):
+                return u(t, x, p)
+        L = jinns.loss.LossPDENonStatio
+    params = jinns.parameters.Params(nn_params=u.init_params(), eq_params={})
+    loss = L(u=u, dynamic_loss=Eq(Tmax=1), params=params)
+    stores = []      # (name, hook field of the store, hook field of the cursor, registry, batch size)
+    if gk in ("ode", "nonstatio"):
+        arr = _np(g.times)
+        stores.append(("times", "times", "curr_time_idx", Registry(arr), cfg["b"] if gk == "ode" else cfg["bt"], arr, int(g.curr_time_idx)))
+    if gk in ("statio", "nonstatio"):
+        arr = _np(g.omega)
+        stores.insert(0, ("omega", "omega", "curr_omega_idx", Registry(list(arr)), cfg["b"], arr, int(g.curr_omega_idx)))
+        if cfg.get("bb") is not None and cfg["dim"] == 2:
+            arr = _np(g.omega_border)
+            stores.insert(1, ("border", "omega_border", "curr_omega_border_idx", Registry(list(arr)), cfg["bb"], arr, int(g.curr_omega_border_idx)))
+    if any(s[3].dup for s in stores):
+        tr["skipped"] = "duplicate floats in store"
+        return tr
+    for (name, f_store, f_cur, reg, b, arr, cur0) in stores:
+        n = arr.shape[0]
+        tr["stores"].append(_store(name, observable=False, req=n, b=b, neff=n, init=reg.ids(list(arr)), cur0=cur0, inDom=[True] * n,
+                                   shape=list(arr.shape), mask=[True] * n))
+    _verif.drain()
+    out = jinns.solve(n_iter=cfg["iters"], init_params=params, data=g, loss=loss, optimizer=optax.sgd(0.0), verbose=False)
+    jax.effects_barrier()
+    evs = [e for e in _verif.drain() if e["kind"] in ("solve_init", "solve_draw")]
+    if len(evs) != cfg["iters"] + 1 or evs[0]["kind"] != "solve_init":
+        tr["exc"] = f"hook events: {[e['kind'] for e in evs][:4]}... ({len(evs)}) for {cfg['iters']} iterations"
+        return tr
+    for e in evs:
+        st = [_evst(int(e[f_cur]), reg.ids(list(_np(e[f_store])))) for (name, f_store, f_cur, reg, b, arr, cur0) in stores]
+        tr["ev"].append(_event(st))
+    gret = out[3]
+    last = tr["ev"][-1]["st"]
+    for k, (name, f_store, f_cur, reg, b, arr, cur0) in enumerate(stores):
+        if reg.ids(list(_np(getattr(gret, f_store)))) != last[k]["order"] or int(getattr(gret, f_cur)) != last[k]["cur"]:
+            tr["exc"] = "returned generator is not the generator after the last draw"
+    return tr
+
+
+CASES["solvegen"] = case_solvegen
